@@ -387,3 +387,13 @@ Proof.
   split; [vm_compute; reflexivity |]. split; [reflexivity |].
   unfold simplex_det, em_tri. cbn. lra.
 Qed.
+
+(* non-vacuity of the Lagrange theorem's span hypotheses: the monomial basis 1, eta0, eta1 (nb = 3) with its derivative functions *)
+Lemma lagrange_span_nonvacuous :
+  let pb := fun (j : nat) (eta : R * R) => match j with 0%nat => 1 | 1%nat => fst eta | _ => snd eta end in
+  let dxb := fun (j : nat) (_ : R * R) => match j with 1%nat => 1 | _ => 0 end in
+  let dyb := fun (j : nat) (_ : R * R) => match j with 2%nat => 1 | _ => 0 end in
+  (forall eta, wsumf 0 [1; 0; 0] (fun j => pb j eta) = 1 /\ wsumf 0 [1; 0; 0] (fun j => dxb j eta) = 0 /\ wsumf 0 [1; 0; 0] (fun j => dyb j eta) = 0)
+  /\ (forall eta, wsumf 0 [0; 1; 0] (fun j => pb j eta) = fst eta /\ wsumf 0 [0; 1; 0] (fun j => dxb j eta) = 1 /\ wsumf 0 [0; 1; 0] (fun j => dyb j eta) = 0)
+  /\ (forall eta, wsumf 0 [0; 0; 1] (fun j => pb j eta) = snd eta /\ wsumf 0 [0; 0; 1] (fun j => dxb j eta) = 0 /\ wsumf 0 [0; 0; 1] (fun j => dyb j eta) = 1).
+Proof. cbv zeta. repeat split; cbn [wsumf]; ring. Qed.
